@@ -1028,7 +1028,7 @@ var propMeta = map[string]meta{
 	"C17": mk("0..6 connections idle/mid-header/mid-body/handler parked/write blocked; cancellation, accept faults and listener close placed by the tape (also in the same step as an accept or delivery); clock advanced to just before/at/after each deadline.", libParts),
 	"C18": mk("All authentication histories of C10 with unique 20-character passwords and secrets; every logger call recorded; token scan in raw/hex/base64/byte-list form.", refParts),
 	"C19": mk("Clients holding another secret (and the converse: same secret, clear flag); bodies classified by the independent length-consistency classifier.", refParts, "input property: the classifier decides"),
-	"C20": mk("Histories mixing completed/abandoned sessions, refused admissions, even first sequence numbers, key mismatches, resets, shutdown with open connections; gauges read at every quiescent step; in part of the runs a sibling Server value holds idle connections during the burst.", libParts, "gauges are process-global: values are relative to the run's baseline (with a sibling: to the value read once its connections are open)"),
+	"C20": mk("Histories mixing completed/abandoned sessions, refused admissions, even first sequence numbers, key mismatches, resets, shutdown with open connections; gauges read at every quiescent step; in a few runs hundreds of sessions wait on one connection before it closes, is reset, idles out or the server stops; in part of the runs a sibling Server value holds idle connections during the burst.", libParts, "gauges are process-global: values are relative to the run's baseline (with a sibling: to the value read once its connections are open)"),
 }
 
 // makeYieldCopy is defined in yield.go.
